@@ -49,7 +49,7 @@ def f19_applies(ctoks, cells, pl):
 def run(ctx):
     from checks import detailed_common as dc
     proof_ok, proof = common.proof_status(ctx, "C04")
-    n = 3000 if ctx.quick else 40000
+    n = 3000 if ctx.quick else 200000
     s = ctx.seed
     plan = [(0, n // 2, s + 10), (2, n // 2, s + 11), (16, n // 3, s + 12)]
     run = lc.LegalRun(ctx, plan).execute()
